@@ -65,13 +65,21 @@ func genC12(w *simrt.Choices, tier string, avoid map[string]bool) Case {
 		// server's scanner (Start); DoScan is never called by the server then.
 		k.Mode = "loop"
 	}
-	k.Racers = []string{"deliver", "deliver", "none", "remove"}[w.Choose(4)]
+	k.Racers = []string{"deliver", "deliver", "none", "remove", "remove-now"}[w.Choose(5)]
+	if k.Racers == "remove-now" {
+		// another interface deletes expired mail at the very moment the scan runs
+		if k.Period == 0 {
+			k.Racers = "none"
+		} else {
+			k.Mode = "scan"
+		}
+	}
 	for i, n := 0, w.Choose(16); i < n; i++ {
 		k.Prefill = append(k.Prefill, c12Msg{Box: k.Names[w.Choose(nb)], Age: c12Offsets[w.Choose(len(c12Offsets))]})
 	}
 	k.RunFor = []time.Duration{30 * time.Second, 61 * time.Second, 3 * time.Minute, 11 * time.Minute}[w.Choose(4)]
 	k.CancelAt = time.Duration(w.Choose(int(k.RunFor/time.Millisecond)+1)) * time.Millisecond
-	if k.Racers != "none" {
+	if k.Racers != "none" && k.Racers != "remove-now" {
 		for i, n := 0, 1+w.Choose(8); i < n; i++ {
 			k.Live = append(k.Live, c12Msg{Box: k.Names[w.Choose(nb)], Age: c12Offsets[w.Choose(len(c12Offsets))],
 				At: time.Duration(w.Choose(int(k.RunFor/time.Millisecond)+1)) * time.Millisecond})
@@ -160,7 +168,21 @@ func runC12(c *Ctx, cs Case) {
 	defer cancel()
 
 	// racers
-	if k.Racers != "none" {
+	if k.Racers == "remove-now" {
+		c.Go("racer", func() {
+			cutoff := time.Now().Add(-k.Period)
+			n := 0
+			for _, r := range recs {
+				if r.date.Before(cutoff) && r.removedBy == "" && n < 3 && (len(r.id)+n)%2 == 0 {
+					n++
+					r.removedBy = "racer"
+					_ = st.RemoveMessage(r.box, r.id)
+					c.Logf("racer removed expired %s/%s", r.box, r.id)
+				}
+			}
+			c.Stat("probe.expired_removed_by_racer_during_scan", int64(n))
+		})
+	} else if k.Racers != "none" {
 		c.Go("racer", func() {
 			for i, m := range k.Live {
 				if d := m.At - time.Since(start); d > 0 {
@@ -332,8 +354,8 @@ func init() {
 		ThoroughRuns:      200000,
 		Rule: "real RetentionScanner (direct DoScan, or the Start loop with Join) over the real memory and file stores on the simulated " +
 			"clock: 1-12 mailboxes, 0-15 prefilled messages whose dates sit at the cutoff -72h,-1h,-1s,-1ns,0,+1ns,+1s,+90s,+1h,+1000h, " +
-			"period in {0,1ns,1m,10m,24h}, RetentionSleep in {0,50ms,2s}, a racing task delivering (or, in a separate sub-batch, removing) " +
-			"at seeded simulated instants, and cancellation at a seeded instant. The scanner sees a recording Store wrapper. Oracle: every " +
+			"period in {0,1ns,1m,10m,24h}, RetentionSleep in {0,50ms,2s}, a racing task delivering (or, in separate sub-batches, removing at seeded instants or removing " +
+			"expired messages at the very moment the scan runs) , and cancellation at a seeded instant. The scanner sees a recording Store wrapper. Oracle: every " +
 			"removal by the scanner is of a message older than the period at that instant; after every completed scan everything expired " +
 			"at its start is gone; with cap 0 nothing else vanishes; period 0 never scans; Start and Join return within one simulated " +
 			"second of cancel and nothing is deleted afterwards. non-trivial = a scan completed or the scanner removed something",
